@@ -127,6 +127,13 @@ def gen_cases(ctx):
             if l["kind"] != "unit":
                 l["excStyle"] = "attr-hook"
         o = {"verbose": rng.choice([0, 1, 2]), "buffer": rng.random() < 0.5, "processes": rng.choice([1, 1, 2])}
+        if i % 2 == 1:
+            # exceptions without a message, with XML reports
+            for t in w["tests"]:
+                for p_ in cw.parts_of(t):
+                    if p_.get("exc") in ("fail", "error") and p_.get("excStyle") != "noframes":
+                        p_["excStyle"] = "nomsg"
+            o["xml"] = "xmlout"
         cases.append(cw.Case(w, o, "directed:noframes"))
     return cases
 
